@@ -1,4 +1,4 @@
-CONSTANTS SIZES = {2, 3}  GAPS = {0, 3}  MAXE = 2  MAXW = 0  ITERS = 2  KEYS = {1, 2}
+CONSTANTS SIZES = {2}  GAPS = {0, 3}  MAXE = 2  MAXW = 0  ITERS = 2  KEYS = {1, 2}
 SPECIFICATION Spec
-INVARIANTS TypeOK C14_Pt
+INVARIANTS TypeOK C14_Pt EmitReplay
 CHECK_DEADLOCK FALSE
